@@ -39,6 +39,8 @@ def generate(seed, mode):
         k = w.randint(0, min(c, 2))
         classes.append(w.sample(range(c), k) if c else [])
     nf = w.randint(0, 2)
+    cflags = [{'meta': w.random() < 0.25, 'slots': w.random() < 0.2} for _ in range(ncls)]
+    meta_impl = w.sample(range(nI), w.randint(1, 2))
     # swarm knobs
     chk_p = w.choice([100, 100, 60, 30, 0])
     gc_rate = w.choice([0.0, 0.02, 0.05, 0.15])
@@ -68,7 +70,7 @@ def generate(seed, mode):
         last_ob_decl = None
         if r < 0.09:
             ops.append({'op': 'newclass', 'bases': [o.randrange(16) for _ in range(o.randint(0, 2))],
-                        'xs': xs(2, True), 'v': o.randrange(3), 'k': k})
+                        'xs': xs(2, True), 'v': o.randrange(3), 'meta': o.random() < 0.25, 'slots': o.random() < 0.2, 'k': k})
         elif r < 0.12:
             # a new undeclared subclass whose first ever query goes through an instance (or a super proxy of it)
             ops.append({'op': 'newsubq', 'bases': [o.randrange(16) for _ in range(o.randint(1, 2))], 'k': k})
@@ -101,7 +103,7 @@ def generate(seed, mode):
         else:
             ops.append({'op': 'query', 'kind': o.randrange(3), 'i': o.randrange(16), 'k': k})
     return {'machine': MACHINE, 'seed': seed,
-            'world': {'ibases': ibases, 'classes': classes, 'nfuncs': nf, 'chk_p': chk_p,
+            'world': {'ibases': ibases, 'classes': classes, 'cflags': cflags, 'meta_impl': meta_impl, 'nfuncs': nf, 'chk_p': chk_p,
                       'super': want_super, 'reg': want_super},
             'ops': ops}
 
@@ -243,19 +245,37 @@ def execute(program, ctx, mode):
     def as_set(spec):
         return {idx_of[id(i)] for i in spec.flattened() if id(i) in idx_of}
 
-    def mk_class(bases, tag=None):
+    meta_impl = [x % nI for x in (W.get('meta_impl') or [])]
+    Meta = type('Meta', (type,), {'__module__': 'zisim.w'})
+    if meta_impl:
+        implementer(*[ifs[x] for x in meta_impl])(Meta)
+
+    def mk_class(bases, meta=False, slots=False):
+        # classes with a __provides__ slot stay leaves: the slot's descriptor would be inherited as the class
+        # attribute __provides__ by every subclass, and class-level declarations are not supported on them
+        bases = [b for b in bases if not M.classes[b].get('slots')]
         for attempt in (bases, bases[:1], []):
             try:
-                cls = type('K%d' % len(classes), tuple(classes[b] for b in attempt) or (object,), {'__module__': 'zisim.w'})
+                ns = {'__module__': 'zisim.w'}
+                if slots and not attempt:
+                    ns['__slots__'] = ('__provides__', '__weakref__')       # instances without a __dict__
+                cls = (Meta if (meta and meta_impl) else type)('K%d' % len(classes), tuple(classes[b] for b in attempt) or (object,), ns)
                 break
             except TypeError:
                 continue
         classes.append(cls)
         c = M.new_class(attempt)
+        M.classes[c]['slots'] = '__slots__' in ns
+        M.classes[c]['meta'] = type(cls) is Meta        # (a metaclass is inherited from the bases: Python's rule, not the library's)
+        if type(cls) is Meta:
+            ctx.probe('class-with-declaring-metaclass')
+        if '__slots__' in ns:
+            ctx.probe('class-with-__provides__-slot')
         return c
 
-    for bs in W['classes']:
-        mk_class([b % len(classes) for b in bs] if classes else [])
+    for ci, bs in enumerate(W['classes']):
+        fl = (W.get('cflags') or [{}] * (ci + 1))[ci] if ci < len(W.get('cflags') or []) else {}
+        mk_class([b % len(classes) for b in bs] if classes else [], fl.get('meta', False), fl.get('slots', False))
     for f in range(W.get('nfuncs', 0)):
         def fn(*a):
             return None
@@ -293,7 +313,13 @@ def execute(program, ctx, mode):
                     ctx.violation('C01', 'I.implementedBy-disagrees', 'C01|I.implementedBy!=implementedBy',
                                   {'class': c, 'iface': i})
             m = M.classes[c]
+            if m.get('slots'):
+                continue        # cls.__provides__ is the slot descriptor: no class-level provides on such classes
             dlo, dhi = M.clos(m['dmust']), M.clos(m['dmust'] + m['dmay'])
+            if m.get('meta'):
+                # a class is an instance of its metaclass: it also provides what the metaclass implements
+                dlo = dlo | M.clos(meta_impl)
+                dhi = dhi | M.clos(meta_impl)
             got = as_set(providedBy(cls))
             if not (dlo <= got <= dhi):
                 ctx.violation('C01', 'providedBy(class)-bounds',
@@ -430,7 +456,7 @@ def execute(program, ctx, mode):
             elif name == 'newclass':
                 bases = [b % len(classes) for b in op['bases']] if classes else []
                 bases = list(dict.fromkeys(bases))
-                c = mk_class(bases)
+                c = mk_class(bases, op.get('meta', False), op.get('slots', False))
                 xs = [x % nI for x in op['xs']]
                 v = op['v']
                 if v == 1 and xs:
@@ -558,6 +584,8 @@ def execute(program, ctx, mode):
                     continue
                 c = op['c'] % len(classes)
                 m = M.classes[c]
+                if m.get('slots'):
+                    continue
                 dm = {'must': m['dmust'], 'may': m['dmay']}
                 if name == 'cprov':
                     xs = [x % nI for x in op['xs']]
@@ -581,8 +609,12 @@ def execute(program, ctx, mode):
                     except ValueError:
                         raised = True
                     ctx.log(step, 'cnprov', c, x, raised)
-                    if raised:
+                    via_meta = bool(m.get('meta')) and x in M.clos(meta_impl)
+                    if raised and not via_meta:
                         ctx.violation('C01', 'noLongerProvides(class)-raised', 'C01|noLongerProvides(class)|spurious-ValueError',
+                                      {'class': c, 'iface': x})
+                    if via_meta and not raised:
+                        ctx.violation('C01', 'noLongerProvides(class)-should-raise', 'C01|noLongerProvides(class)|no-ValueError',
                                       {'class': c, 'iface': x})
                 m['dmust'], m['dmay'] = dm['must'], dm['may']
             elif name == 'fimpl':
